@@ -18,7 +18,7 @@ From Coq Require Import List Bool Arith ZArith.
 Import ListNotations.
 From Stab.model Require Import Base StatusM Readiness StageStat Engine.
 From Stab.gen Require Import Gen_Config.
-From Stab.proofs Require Import StatusP EngineP EngineLegal EngineSteps EngineEx.
+From Stab.proofs Require Import StatusP EngineP EngineLegal EngineSteps EngineEx EngineIds.
 
 Theorem C02_dup_noop : forall orc s id do_ack r,
   find_row s id = Some r -> (q_attempts r < queue_max_attempts)%Z -> mem_nat id (w_processed s) = true ->
@@ -51,6 +51,22 @@ Theorem C02_no_reexec : forall orc s a i t st tk,
   g_execs (step orc s a) = g_execs s \/ exists p, g_execs (step orc s a) = p :: g_execs s /\ p <> (i, t).
 Proof. exact recorded_result_not_reexecuted. Qed.
 
+(* An invariant of EVERY run - any workflow, any task behaviour, any list of deliveries in any order, redeliveries,
+   crash cuts, sweeps, cancels, signals, pauses, restarts - proved by induction over the action list with no premise:
+   queue row ids are unique and below the allocator, and so is every processed mark. *)
+Theorem C02_ids_invariant : forall orc stages wmax acts, ids_ok (run orc (init_state stages wmax) acts).
+Proof. intros. apply ids_run, ids_init. Qed.
+
+(* Hence, in every reachable state, a message pushed now is never born "already processed" and never shares its id
+   with a row in the queue: the durable duplicate check (C02_dup_noop) can only ever suppress a redelivery of a row
+   whose own handling committed. *)
+Theorem C02_fresh_message_not_deduplicated : forall orc stages wmax acts m,
+  let s := run orc (init_state stages wmax) acts in
+  let s' := push m s in
+  exists r, In r (w_queue s') /\ q_id r = w_next s /\ q_msg r = m /\ mem_nat (q_id r) (w_processed s') = false
+            /\ forall r', In r' (w_queue s) -> q_id r' <> q_id r.
+Proof. intros. apply fresh_row_unmarked. apply C02_ids_invariant. Qed.
+
 (* non-vacuity: redeliver the already-processed StartWorkflow row (left un-acked) late in a run *)
 Example C02_witness :
   let s1 := run ok_oracle ex_chain [Submit; Deliver 1 false; Deliver 2 true; Deliver 3 true] in
@@ -63,3 +79,5 @@ Print Assumptions C02_dup_noop.
 Print Assumptions C02_no_rearm_without_jump.
 Print Assumptions C02_completed_survives.
 Print Assumptions C02_no_reexec.
+Print Assumptions C02_ids_invariant.
+Print Assumptions C02_fresh_message_not_deduplicated.
